@@ -256,6 +256,10 @@ def run(R):
         ('start = N between {\n    prefix: "-"\n    right: "^"\n    left: "-"\n}\nN = /\\d/\nignore " "\n', '1-^ '),
         ('start = ("1" | "11") between {\n    infix: "=", "=="\n    left: "+"\n}\n', '1=+'),
         ('start = K between {\n    postfix: "?", "??"\n    right: "?"\n}\nclass K { v: /\\d/ }\n', '1?'),
+        # a table written inline as the operand of another table (both compile into one function)
+        ('start = (/\\d/ between {\n    left: "*"\n}) between {\n    prefix: "-"\n    left: "+"\n}\n', '1+*-'),
+        ('start = (/\\d/ between {\n    prefix: "-"\n    right: "^"\n}) between {\n    postfix: "!"\n    left: "+", "-"\n}\n', '1+-^!'),
+        ('start = ((/\\d/ between {\n    left: "*"\n}) between {\n    left: "+"\n}) between {\n    infix: "="\n}\n', '1+*='),
     ]
     for d, alpha in charlevel:
         tx = ['']
